@@ -185,6 +185,9 @@ func c07Scenario(bt baseTrace, p int, deadline bool, other int) cwScenario {
 	open := Step{Op: "open", Kind: bt.Kind}
 	if deadline {
 		open.D = 5000
+	} else if p%2 == 1 {
+		// an explicit cancel of a call that also carries a (distant) deadline: the handler's context is a timeout context
+		open.D = 600000
 	}
 	steps = append(steps, open)
 	base := bt.Steps(c)
